@@ -85,7 +85,7 @@ RULE = ("cases = (entry point, options, system class, relabelling, scatter mode,
         "case descriptors")
 WORKERS = {"quick": 8, "thorough": 16}
 BUDGET = {"quick": 60, "thorough": 900}
-NCASES = {"quick": 5000, "thorough": 100000}
+NCASES = {"quick": 12000, "thorough": 100000}
 FLOORS = {"quick": {"whole.lattice-move": 60000, "whole.bonds": 45000, "image.lattice-move": 90000, "image.bonds": 45000,
                     "image.rigid-non-anchor": 4500, "consequence.distance": 70000, "consequence.angle": 30000,
                     "consequence.dihedral": 25000, "hook.compute_distances": 70000, "hook.compute_angles": 30000,
